@@ -286,8 +286,8 @@ class GeoIndex:
         if not return_distance:
             return pairs
 
-        if not pairs.any():
-            return pairs, pairs
+        if not pairs.size:
+            return pairs, np.array([])
 
         distances = np.hstack([
             distances_to_query
